@@ -177,7 +177,7 @@ impl Check for C11 {
         false
     }
     fn rule(&self) -> String {
-        "One run = one valid LEF text (runs 0..11: the repository's macro.lef and the LEF snippets embedded in lef21's tests; others: G-lef renderings, 1 in 3 with non-ASCII comments/names) and, on it: EVERY prefix (cut at every byte; cuts inside a multi-byte character are delivered as raw bytes), EVERY single-token fault for every token of a harness tokenisation (deleted, duplicated, swapped with its neighbour, replaced by END/MACRO/LAYER/PIN/;/a number/an unterminated string/non-ASCII words, non-ASCII appended/prepended/inserted into names, string literals and comments, a non-ASCII comment line placed before the token; quick tier on texts > 1500 bytes: a seeded 1/4 sample of tokens), plus seeded multi-fault and random-text cases. Each case is stored in SimFs and read by the real LefLibrary::open. evaluations counts cases; non-trivial = damaged text differs from the valid one; distinct = distinct damaged-text digests.".into()
+        "One run = one valid LEF text (runs 0..11: the repository's macro.lef and the LEF snippets embedded in lef21's tests; others: G-lef renderings, 1 in 3 with non-ASCII comments/names) and, on it: EVERY prefix (cut at every byte; cuts inside a multi-byte character are delivered as raw bytes), EVERY single-token fault for every token of a harness tokenisation (deleted, duplicated, swapped with its neighbour, replaced by END/MACRO/LAYER/PIN/;/a number/an unterminated string/non-ASCII words, non-ASCII appended/prepended/inserted into names, string literals and comments, a non-ASCII comment line placed before the token; quick tier on texts > 1500 bytes: a seeded 1/4 sample of tokens), plus seeded multi-fault and random-text cases; three scale runs read 64 KiB, 256 KiB and 1 MiB texts (valid, cut, unterminated string, one very long name/number/comment, non-ASCII first line) so that super-linear behaviour trips the watchdog. Each case is stored in SimFs and read by the real LefLibrary::open. evaluations counts cases; non-trivial = damaged text differs from the valid one; distinct = distinct damaged-text digests.".into()
     }
     fn assumptions(&self) -> Vec<String> {
         vec!["the parser performs no I/O after read_to_string, so termination is bounded by wall-clock (100 x (50 ms + 1 us/byte)) and the supervisor watchdog, not by a step counter".into(), "stack overflow / abort are contained by the child process".into(), "exhaustive over the listed fault kinds for the texts explored only".into()]
@@ -193,6 +193,58 @@ impl Check for C11 {
             let bytes: Vec<u8> = (0..h.len() / 2).filter_map(|i| u8::from_str_radix(&h[2 * i..2 * i + 2], 16).ok()).collect();
             out.violation = read_case(&io, &bytes, "replay", &mut out.probes);
             out.digest = io.borrow().log.finish();
+            return out;
+        }
+        // scale runs: a large valid text and a handful of faults on it; a super-linear reader trips the watchdog
+        if inp.index >= CORPUS.len() as u64 && inp.index < CORPUS.len() as u64 + 3 {
+            let target = [64usize << 10, 256 << 10, 1 << 20][(inp.index - CORPUS.len() as u64) as usize];
+            let mut big = String::from("VERSION 5.8 ;\n");
+            let mut k = 0;
+            while big.len() < target {
+                let (t, _) = gen_lef_text(&mut wt, false);
+                // keep only the MACRO blocks of each generated text, renamed apart
+                for (mi, chunk) in t.split("MACRO ").enumerate().skip(1) {
+                    if chunk.contains("END LIBRARY") || chunk.contains("BEGINEXT") || chunk.contains("PROPERTYDEFINITIONS") || chunk.contains("\nSITE ") || chunk.contains("\nVIA ") || chunk.contains("UNITS") {
+                        continue;
+                    }
+                    big.push_str("MACRO ");
+                    big.push_str(chunk);
+                    big.push('\n');
+                    k += mi;
+                }
+                if t.is_empty() {
+                    big.push_str("# filler\n");
+                }
+            }
+            let _ = k;
+            let b = big.as_bytes();
+            let mut cases: Vec<(String, Vec<u8>)> = vec![("scale:valid".into(), b.to_vec())];
+            for cut in [b.len() - 1, b.len() / 2, b.len() - 7] {
+                cases.push((format!("scale:prefix@{}", cut), b[..cut].to_vec()));
+            }
+            cases.push(("scale:unterminated-string-at-start".into(), format!("VERSION 5.8 ;\nBUSBITCHARS \"[ ;\n{}", &big[14..]).into_bytes()));
+            cases.push(("scale:comment-without-newline".into(), format!("# {}", big.replace('\n', " ")).into_bytes()));
+            cases.push(("scale:one-long-name".into(), format!("MACRO {} END", "x".repeat(target)).into_bytes()));
+            cases.push(("scale:one-long-number".into(), format!("VERSION 5.{} ;", "8".repeat(target)).into_bytes()));
+            cases.push(("scale:nonascii-first-line".into(), format!("# é日本😀\n{}", big).into_bytes()));
+            for (label, bytes) in &cases {
+                let full = format!("scale({} bytes) / {}", bytes.len(), label);
+                if let Some(v) = read_case(&io, bytes, &full, &mut out.probes) {
+                    if out.violation.is_none() {
+                        out.replay_extra = json!({"text_hex": bytes.iter().map(|b| format!("{:02x}", b)).collect::<String>(), "damage": full});
+                        out.violation = Some(v);
+                    }
+                }
+                out.probes.hit("case_scale");
+                out.probes.add("scale_bytes_read", bytes.len() as u64);
+                out.more_keys.push(fnv64(bytes));
+            }
+            out.evals = cases.len() as u64;
+            if inp.want_sample {
+                out.sample = Some(json!({"text": "scale run", "text_len": b.len(), "cases": cases.iter().map(|c| c.0.clone()).collect::<Vec<_>>()}));
+            }
+            out.digest = fnv64(format!("{}{}", b.len(), out.violation.is_some()).as_bytes());
+            out.wtape = wt.used();
             return out;
         }
         let (name, text) = if (inp.index as usize) < CORPUS.len() {
